@@ -8,9 +8,9 @@
 (*   NoReplyToMalformed : no end host answers a malformed SCMP message           *)
 (*   ChainBounded / TotalBounded / Termination : every exchange dies out         *)
 (* ANSWER_ERRORS = TRUE is the broken variant (errors are answered with errors). *)
-EXTENDS Scmp, TLC
+EXTENDS Scmp, TLC, Json
 
-CONSTANTS MAXORIG, ANSWER_ERRORS
+CONSTANTS MAXORIG, ANSWER_ERRORS, GEN
 
 Hosts == {"A", "B"}
 Kinds == {"req", "rep", "err", "uerr", "uinfo", "bad", "dgram"}
@@ -30,35 +30,38 @@ vars == <<net, log, orig>>
 NextId == Cardinality(DOMAIN log) + 1
 Other(h) == IF h = "A" THEN "B" ELSE "A"
 
-Create(k, src, dst, cause, gen, by) ==
-  /\ log' = [i \in DOMAIN log \cup {NextId} |-> IF i = NextId THEN [k |-> k, src |-> src, dst |-> dst, cause |-> cause, gen |-> gen, by |-> by] ELSE log[i]]
+\* the log after message m met its fate and (optionally) one new message was created
+Settle(m, fate) == [log EXCEPT ![m].fate = fate]
+WithNew(base, k, src, dst, cause, gen, by) ==
+  [i \in DOMAIN base \cup {NextId} |->
+     IF i = NextId THEN [k |-> k, src |-> src, dst |-> dst, cause |-> cause, gen |-> gen, by |-> by, fate |-> "inflight"] ELSE base[i]]
 
 Init == net = {} /\ log = <<>> /\ orig = 0
 
 Originate(h, k) == /\ orig < MAXORIG
                    /\ orig' = orig + 1
-                   /\ Create(k, h, Other(h), 0, 0, "host")
+                   /\ log' = WithNew(log, k, h, Other(h), 0, 0, "host")
                    /\ net' = net \cup {NextId}
 
-Lose(m) == /\ m \in net /\ net' = net \ {m} /\ UNCHANGED <<log, orig>>
+Lose(m) == /\ m \in net /\ net' = net \ {m} /\ log' = Settle(m, "lost") /\ UNCHANGED orig
 
 \* delivery to the destination end host: echo handler (+ error handler, which never sends)
 HostAnswers(k) == IF ANSWER_ERRORS /\ IsErrKind(k) THEN 1
                   ELSE IF k = "dgram" THEN 0 ELSE EchoHandler(KDesc(k))
 Deliver(m) == /\ m \in net
               /\ IF HostAnswers(log[m].k) = 1
-                 THEN /\ Create(IF IsErrKind(log[m].k) THEN "err" ELSE "rep", log[m].dst, log[m].src, m, log[m].gen + 1, "host")
+                 THEN /\ log' = WithNew(Settle(m, "delivered"), IF IsErrKind(log[m].k) THEN "err" ELSE "rep", log[m].dst, log[m].src, m, log[m].gen + 1, "host")
                       /\ net' = (net \ {m}) \cup {NextId}
-                 ELSE /\ net' = net \ {m} /\ UNCHANGED log
+                 ELSE /\ net' = net \ {m} /\ log' = Settle(m, "delivered")
               /\ UNCHANGED orig
 
 \* the router cannot forward m (expired hop, interface down, unknown destination ...)
 RouterEmits(k) == IF ANSWER_ERRORS /\ IsErrKind(k) THEN 1 ELSE RouterAnswers(KODesc(k))
 RouterFail(m) == /\ m \in net
                  /\ IF RouterEmits(log[m].k) = 1
-                    THEN /\ Create("err", "R", log[m].src, m, log[m].gen + 1, "router")
+                    THEN /\ log' = WithNew(Settle(m, "failed"), "err", "R", log[m].src, m, log[m].gen + 1, "router")
                          /\ net' = (net \ {m}) \cup {NextId}
-                    ELSE /\ net' = net \ {m} /\ UNCHANGED log
+                    ELSE /\ net' = net \ {m} /\ log' = Settle(m, "failed")
                  /\ UNCHANGED orig
 
 LoseAny == \E m \in net : Lose(m)
@@ -86,4 +89,6 @@ TotalBounded == Cardinality(DOMAIN log) <= 3 * MAXORIG
 \* search bound for the broken variant only (errors answered => unbounded chains)
 ChainLimit == \A i \in DOMAIN log : log[i].gen <= 4
 Termination == <>[](net = {})
+\* generation: every finished exchange (all originated, nothing in flight) as the list of messages with their fates
+Emit == (GEN /\ net = {} /\ orig = MAXORIG) => PrintT(<<"REPLAY", ToJson([i \in 1..Cardinality(DOMAIN log) |-> log[i]])>>)
 =============================================================================
